@@ -61,6 +61,8 @@ type Unit struct {
 	specErrors      []string
 	deferList       []*ast.CallExpr
 	closureWritten  map[*types.Var]bool // locals assigned inside escaping closures (havoced at calls / sync points)
+	visLenVars      map[int]*types.Var  // range-over-map loop ordinal -> ghost sum of visited value lengths
+	pendingExitHook func(*State)        // facts for the normal exit of the next loop run by runLoop
 	goScan          int                 // 0 not scanned, 1 no go statement, 2 has go statement
 	spawned         []func(*State)      // re-havoc of the modifies targets of spawned goroutines (see resync)
 	deferGuards     []int
@@ -325,6 +327,12 @@ func (u *Unit) heapWrite(st *State, h string, newVal string) {
 }
 
 func (u *Unit) havocHeap(st *State, h string) {
+	if strings.HasPrefix(h, "HMp_") || strings.HasPrefix(h, "HMv_") {
+		// the length-sum ghost of maps of this type is forgotten with them
+		if hl := "HL_" + h[4:]; u.c.heapNames[hl] != "" {
+			st.heaps[hl] = u.c.fresh(hl, u.c.heapNames[hl])
+		}
+	}
 	prev := u.heapCur(st, h)
 	n := u.c.fresh(h, u.c.heapNames[h])
 	st.heaps[h] = n
